@@ -131,13 +131,13 @@ var c15Docs = []string{
 	// 2 floats broken across pages (context.brokenOutOfFlow)
 	c15Head + `<p>aa</p><p style="float:left;width:40%">f1 f2 f3 f4 f5 f6 f7</p><p style="float:right;width:40%">g1 g2 g3 g4 g5 g6</p><p>t1 t2 t3 t4 t5 t6 t7 t8 t9 t10 t11 t12</p>`,
 	// 3 counters, lists and generated content
-	c15Head + `<style>li{display:list-item;list-style:decimal inside}div::before{counter-increment:k;content:counter(k) "."}</style><ul><li>x</li><li>y</li><li>z</li></ul><div>a</div><div>b</div><div>c</div><div>d</div>`,
+	c15Head + `<style>li{display:list-item;list-style:decimal inside}div::before{counter-increment:k;content:counter(k) "."}</style><ul><li>x</li><li>y</li><li>z</li></ul><div>a</div><div>b</div><div>c</div><div>d</div><p lang="en" style="hyphens:auto;width:6ch">characteristically unbelievable misunderstanding</p>`,
 	// 4 table with header and footer groups over several pages
 	c15Head + `<table style="border-spacing:1px;width:100%"><thead><tr><th>h1</th><th>h2</th></tr></thead><tfoot><tr><td>f1</td><td>f2</td></tr></tfoot><tbody><tr><td>a</td><td>b</td></tr><tr><td>c</td><td>d</td></tr><tr><td>e</td><td>f</td></tr><tr><td>g</td><td>h</td></tr><tr><td>i</td><td>j</td></tr></tbody></table>`,
 	// 5 multi-column and flex
 	c15Head + `<div style="columns:2;column-gap:2px"><p>c1 c2 c3 c4 c5 c6 c7 c8 c9</p></div><div style="display:flex;flex-wrap:wrap"><div>x1</div><div>x2</div><div style="flex:1">x3</div></div>`,
 	// 6 named strings over pages and bookmarks
-	c15Head + `<h1>alpha</h1><p>p1</p><p>p2</p><p>p3</p><h1 style="break-before:page">beta</h1><p>q1</p><p style="break-before:page">r1</p><h2 style="bookmark-level:2">sub</h2>`,
+	c15Head + `<h1>alpha</h1><p>p1</p><p>p2</p><p>p3</p><h1 style="break-before:page">beta</h1><p>q1</p><p style="break-before:page">r1</p><h2 style="bookmark-level:2">sub</h2><p lang="en" style="hyphens:auto;width:5ch">responsibility documentation</p>`,
 	// 7 hyphenation, ex / ch units, vertical-align
 	c15Head + `<p lang="en" style="hyphens:auto;width:7ch">extraordinary international hyphenation</p><div style="width:10ex;height:2ex;background:#abc"></div><p>a<span style="vertical-align:middle;font-size:5px">m</span>b</p>`,
 	// 8 absolute, fixed and running elements, stacking
